@@ -148,7 +148,7 @@ type evidence struct {
 var globalAssumptions = []string{
 	"go/ssa (x/tools v0.29.0) and the gc compiler agree on the semantics of the functions under contract",
 	"z3 5.1.0, z3 4.8.12 and cvc5 1.0.3 are sound; an obligation counts as discharged only on `unsat`",
-	"method receivers are non-nil; distinct pointer-to-scalar/slice parameters do not alias; callees do not retain pointers to caller locals",
+	"pointer and interface parameters (including receivers) of a function under contract are non-nil unless its contract says nullable; this is checked at every call that goes through a contract; distinct pointer-to-scalar/slice parameters do not alias; callees do not retain pointers to caller locals",
 	"slices and strings hold fewer than 2^56 elements; int is 64 bits",
 	"single-owner slices: a backing array that has been shared as a value is not written afterwards (violations are reported as out-of-subset, never passed)",
 	"error values are abstracted to (nil-ness, errors.Is class, wrapped bit); message text, perm bits, log output are dropped",
@@ -166,6 +166,7 @@ func cmdCheck(args []string) int {
 	}
 	id := args[0]
 	fs.Parse(args[1:])
+	repoRoot = *root
 	if t := os.Getenv("VERIF_TIER"); t != "" && *tier == "quick" {
 		*tier = t
 	}
